@@ -96,6 +96,11 @@ class TranslateNode(Node, TranslatableTag):
 
     def render_to_output(self, context: RenderContext, buffer: TextIO) -> int:
         """Render the node to the output buffer."""
+        if not self.singular_block.block.nodes and not self.plural_block:
+            # No message, nothing to translate. See `messages`. Looking up the
+            # empty string would return the catalog's header entry.
+            return 0
+
         translations = self.resolve_translations(context)
         namespace = {k: expr.value.evaluate(context) for k, expr in self.args.items()}
         count = self.resolve_count(context, namespace)
@@ -114,6 +119,9 @@ class TranslateNode(Node, TranslatableTag):
         self, context: RenderContext, buffer: TextIO
     ) -> int:
         """Render the node to the output buffer."""
+        if not self.singular_block.block.nodes and not self.plural_block:
+            return 0
+
         translations = self.resolve_translations(context)
         namespace = {
             k: await expr.value.evaluate_async(context) for k, expr in self.args.items()
